@@ -461,6 +461,13 @@ class SymNum(Sym):
         return SymNum(uf("pow", 2)(toreal(s.t), toreal(ot)))
 
     def __rpow__(s, o):
+        if type(o).__name__ == "ndarray":
+            import numpy as np
+
+            out = np.empty(o.shape, dtype=object)
+            for idx in np.ndindex(o.shape):
+                out[idx] = o[idx] ** s
+            return out
         ot = lift(o)
         if ot is None:
             return NotImplemented
@@ -593,13 +600,24 @@ def term(x, like=None):
     return t
 
 
-def sym_int(x, *a):
-    """drop-in for ``int`` injected as a module global: identity on integer-sorted symbols"""
-    if isinstance(x, SymNum):
-        if z3.is_int(x.t):
-            return x
-        raise SymTypeError("int() of a real-sorted symbol")
-    return int(x, *a)
+class _SymIntMeta(type):
+    def __instancecheck__(cls, obj):
+        return isinstance(obj, _builtin_int) or (isinstance(obj, SymNum) and z3.is_int(obj.t))
+
+
+_builtin_int = int
+
+
+class sym_int(int, metaclass=_SymIntMeta):
+    """drop-in for ``int`` injected as a module global: identity on integer-sorted symbols, the builtin otherwise;
+    ``isinstance(x, int)`` keeps working (true for python ints and integer-sorted symbols)"""
+
+    def __new__(cls, x=0, *a):
+        if isinstance(x, SymNum):
+            if z3.is_int(x.t):
+                return x
+            raise SymTypeError("int() of a real-sorted symbol")
+        return _builtin_int(x, *a)
 
 
 def sym_float(x):
